@@ -106,6 +106,7 @@ def patch_time():
 def patch_router_timers():
     import flexstack.geonet.router as r
     r.Timer = FakeTimer
+    r.print = lambda *a, **k: None      # the router reports discards on stdout
 
 
 class CaptureLL:
